@@ -206,12 +206,15 @@ pub const DECLS: &[(&str, &str)] = &[
   ("leav-template-call-in-array", "function mk@N(): number { return 1; }\nexport const c@N = [`x${mk@N()}`, \"y\"];\n"),
   ("leav-template-new-in-class-prop", "export class CT@N { label = { t: `${new Date()}` }; static tags = [`t${Date.now()}`]; }\n"),
   ("leav-template-call-in-default-param", "function mk@N(): number { return 1; }\nexport function ft@N(a = { k: `v${mk@N()}` }): void {}\n"),
+  // a decorator on the implementation of an overloaded method / on overloaded static methods and accessors
+  ("class-overloaded-method-decorated", "function dec@N(...args: any[]): any {}\nfunction mkd@N(): number { return 1; }\nexport class CD@N { m(a: string): string; m(a: @R): @R; @dec@N(mkd@N()) m(a: any): any { return a; } static s(a: string): void; static s(a: number): void; @dec@N static s(a: any): void {} }\n"),
   ("unused-private", "type Unused@N = @R;\nfunction unusedFn@N(): void {}\nclass UnusedC@N {}\n"),
 ];
 
 pub const B_BASE: &str = "export interface BT { b: number }\nexport type BU = string;\nexport const bv: number = 1;\nexport class BC { x: number = 1; }\nexport namespace BN { export type Y = number; }\nexport function helper(): number { return 1; }\nexport default class DefB { d: number = 1; }\nconst unusedInB = 1;\n";
 
 pub const SLOT0_ONLY: &[&str] = &[
+  "class-overloaded-method-decorated",
   "expando-fn-qualified-past-property", "expando-fn-qualified-property", "qualified-typeof-private-var", "qualified-typeof-private-var-deep", "merged-class-namespace-qualified", "merged-fn-namespace-qualified", "merged-enum-namespace-qualified", "class-static-computed-members",
   "leav-template-call-in-object", "leav-template-call-in-array", "leav-template-new-in-class-prop", "leav-template-call-in-default-param",
   "leav-bin-call-left", "leav-bin-call-right", "leav-cond-call-test", "leav-cond-call-cons", "leav-cond-call-alt", "leav-member-computed-call", "leav-member-of-call-object", "leav-object-spread-first", "leav-object-spread-last", "leav-array-spread-first", "leav-seq-then-literal", "leav-unary-of-call", "leav-as-const-with-call", "leav-nested-object-call-first",
